@@ -212,6 +212,11 @@ def run_one(mod, base_seed, r, tier, stats):
             stats.add("distinct_nontrivial", sig)
     if len(stats.samples) < 3 and res.get("nontrivial"):
         stats.samples.append(mod.describe(case) if hasattr(mod, "describe") else case)
+    if os.environ.get("VERIF_DIGESTS"):
+        # event-log digest of this run (determinism self-test): everything the run decided and observed
+        stats.sets.setdefault("__digests__", set()).add(
+            f"{r}:" + digest({"case": case, "violations": res.get("violations", []), "signature": res.get("signature"),
+                              "decisions": res.get("decisions"), "trace": res.get("trace"), "nontrivial": res.get("nontrivial")}))
     out = []
     for v in res.get("violations", []):
         out.append({"case": case, "violation": v})
@@ -335,6 +340,9 @@ def run_check(modname, tier, base_seed=None, jobs=None, runs=None):
                 exit_code = EXIT_VIOLATION
         reported.append({"key": small_viol.get("key"), "class": small_viol.get("class"), "clause": small_viol.get("clause"), "replay": path, "known": kf is not None})
 
+    if os.environ.get("VERIF_DIGESTS"):
+        with open(os.environ["VERIF_DIGESTS"], "w") as f:
+            f.write(dumps(sorted(stats.sets.pop("__digests__", set()))))
     wall = time.time() - t0
     write_evidence(mod, tier, base_seed, stats, extra, wall, wall_runs, n_viol, n_known, reported, nruns, jobs)
     print(f"[{prop}] runs={stats.c.get('runs', 0)} distinct_nontrivial={len(stats.sets.get('distinct_nontrivial', ()))} "
